@@ -6,6 +6,7 @@ import logstore
 import c12
 import c15
 import c14
+import nhfamily
 
 CHECKS = {}
 CHECKS["RAFT"] = raftfamily.check_all
@@ -18,6 +19,9 @@ CHECKS["C08"] = rsmchecks.check_c08
 CHECKS["C12"] = c12.check
 CHECKS["C15"] = c15.check
 CHECKS["C14"] = c14.check
+CHECKS["C01"] = nhfamily.check_c01
+CHECKS["C04"] = nhfamily.check_c04
+CHECKS["C11"] = nhfamily.check_c11
 CHECKS["C09"] = logstore.check_c09
 CHECKS["C10"] = logstore.check_c10
 
